@@ -48,6 +48,14 @@ CLAIMED = {
              "recursive cycles matches a ranking pattern; exit status / no-write-on-rejection by dominance. Not decided: "
              "exceptions and hangs inside third-party code, RecursionError on pathologically deep documents.",
         ref="DESIGN.md §4 C06"),
+    "C12": dict(
+        technique="typed enumeration of every order-observation of a set (Python via abstract-interpreter types, Jinja via the template interpreter) + structural rules for the permutation clause",
+        text="Hash-seed clause decided for all documents: every place where the order of a set-typed value is observed is "
+             "enumerated from the typed program and must be sorted, a proven singleton, an order-insensitive keyed update, or a "
+             "frozen diagnostics-only case; environment-dependent sources are enumerated (none). Permutation clause only through "
+             "necessary conditions: sorted aggregates, per-round error reset of the three worklists, separator-anchored suffix "
+             "tests on references, monotone updates of shared classes. Not decided: invariance under permutation as such.",
+        ref="DESIGN.md §4 C12"),
 }
 
 NOT_APPLICABLE = {
